@@ -33,6 +33,13 @@ func unitOfKind(r *RNG, h *hist, o histOpts, k int, fileNo *int, ts uint32) hUni
 		ns := r.Range(1, 2)
 		seen := map[int]bool{}
 		for j := 0; j < ns; j++ {
+			if r.Chance(1, 3) {
+				// statements logged inside the transaction: statement-format DML, SET, and DDL-class statements
+				// (CREATE/DROP TEMPORARY TABLE …) — all of them belong to the open transaction
+				kw := r.Pickstr("insert", "update", "delete", "set", "create", "alter", "drop", "truncate", "rename")
+				u.changes = append(u.changes, hChange{stmt: genStmt(r, kw, o, ts)})
+				continue
+			}
 			ti := r.Intn(len(h.tables))
 			u.changes = append(u.changes, hChange{rows: genRows(r, h, o, ti, ts, !seen[ti])})
 			seen[ti] = true
